@@ -38,7 +38,8 @@ def run_patch(prop, patch, repo='/repo'):
         except SystemExit:
             return {'status': 'skipped', 'why': 'patched tree does not compile', 'violations': []}
         res, facts, nfiles, mod = R.analyse(prop, dst, facts_path=out)
-        return {'status': 'applied', 'violations': [v['key'] for v in res.violations()], 'records': len(res.records)}
+        known = {k['key'] for k in R.load_known().get('open', [])}
+        return {'status': 'applied', 'violations': [v['key'] for v in res.violations() if v['key'] not in known], 'records': len(res.records)}
     finally:
         shutil.rmtree(d, ignore_errors=True)
 
